@@ -17,9 +17,25 @@ use std::collections::BTreeMap;
 
 #[derive(Clone, Debug, Serialize, Deserialize, PartialEq, Eq)]
 pub enum FOp {
-    Pub { qos: u8, topic: u8, size: u16 },
-    Sub { n: u8 },
-    Unsub { n: u8 },
+    Pub {
+        qos: u8,
+        topic: u8,
+        size: u16,
+        #[serde(default)]
+        timeout_ms: Option<u32>,
+    },
+    Sub {
+        n: u8,
+        #[serde(default)]
+        timeout_ms: Option<u32>,
+    },
+    Unsub {
+        n: u8,
+        #[serde(default)]
+        timeout_ms: Option<u32>,
+    },
+    /// from now on the transport needs this long to take a batch (the write completion comes that much later)
+    WriteDelay { ms: u32 },
     Wait { ms: u32 },
     /// wait for a multiple (in quarters) of the negotiated keep-alive interval
     WaitKeepAlive { quarters: u8 },
@@ -45,6 +61,10 @@ pub struct Faithful {
     ping_delay_kind: u8,
     frag: usize,
     eager: bool,
+    write_delay: u64,
+    flush_due: Option<u64>,
+    cand_key: Option<(usize, usize)>,
+    cand_cache: Vec<u64>,
     session_loss_next: bool,
     pub spin: Vec<String>,
     pub stranded: Option<String>,
@@ -64,7 +84,7 @@ fn ping_deadline_ms(cfg: &SimCfg) -> u64 {
 
 impl Faithful {
     pub fn new(cfg: &SimCfg, eager: bool) -> Faithful {
-        Faithful { sim: Sim::new(cfg), sched: Vec::new(), ack_delay: 0, ping_delay_kind: 0, frag: usize::MAX, eager, session_loss_next: false, spin: Vec::new(), stranded: None, steps: 0, step_bound_hit: false }
+        Faithful { sim: Sim::new(cfg), sched: Vec::new(), ack_delay: 0, ping_delay_kind: 0, frag: usize::MAX, eager, write_delay: 0, flush_due: None, cand_key: None, cand_cache: Vec::new(), session_loss_next: false, spin: Vec::new(), stranded: None, steps: 0, step_bound_hit: false }
     }
 
     fn ping_delay(&self) -> Option<u64> {
@@ -116,6 +136,7 @@ impl Faithful {
             if self.sim.conn.as_ref().map(|c| c.errored || c.client_disconnected).unwrap_or(false) {
                 self.sim.do_close();
                 self.sched.clear();
+                self.flush_due = None;
                 continue;
             }
             if self.sim.conn.is_none() {
@@ -124,6 +145,12 @@ impl Faithful {
             }
             self.schedule_new();
             let now = self.sim.now;
+            if matches!(self.flush_due, Some(t) if t <= now) {
+                // the slow transport has finally taken the batch
+                self.flush_due = None;
+                self.flush();
+                continue;
+            }
             if let Some(pos) = self.sched.iter().position(|(due, _)| *due <= now) {
                 let (_, p) = self.sched.remove(pos);
                 if p.type_code == 2 {
@@ -162,7 +189,7 @@ impl Faithful {
                 } else {
                     spin_count = 0;
                 }
-                self.flush();
+                self.flush_or_schedule();
                 continue;
             }
             if self.eager && !eager_done {
@@ -176,13 +203,70 @@ impl Faithful {
                 let emitted_after = self.sim.conn.as_ref().map(|c| c.emitted.len()).unwrap_or(0);
                 if emitted_after != emitted_before {
                     eager_done = false;
-                    self.flush();
+                    self.flush_or_schedule();
                 }
                 continue;
             }
             return;
         }
         self.step_bound_hit = true;
+    }
+
+    /// bytes leave at once, or - with a slow transport - the batch (including whatever later service calls append
+    /// to it) is taken `write_delay` ms after its first byte was produced
+    fn flush_or_schedule(&mut self) {
+        let pending = self.sim.conn.as_ref().map(|c| if c.errored { 0 } else { c.out.len() - c.written }).unwrap_or(0);
+        if pending == 0 {
+            return;
+        }
+        if self.write_delay == 0 {
+            self.flush();
+        } else if self.flush_due.is_none() {
+            self.flush_due = Some(self.sim.now + self.write_delay);
+        }
+    }
+
+    /// instants at which an independent observer knows that the engine has something to do (ack deadlines computed
+    /// from the wire log); only the eager twin uses them, the faithful driver relies on the engine's own answer
+    fn eager_candidates(&mut self) -> Option<u64> {
+        let now = self.sim.now;
+        let key = (self.sim.tr.emitted.len(), self.sim.tags.values().filter(|t| t.resolved).count());
+        if self.cand_key == Some(key) {
+            return self.cand_cache.iter().copied().filter(|d| *d > now).min();
+        }
+        let all = self.eager_candidates_uncached();
+        self.cand_key = Some(key);
+        self.cand_cache = all;
+        self.cand_cache.iter().copied().filter(|d| *d > now).min()
+    }
+
+    fn eager_candidates_uncached(&self) -> Vec<u64> {
+        let tr = &self.sim.tr;
+        let mut timeouts: BTreeMap<u32, u64> = BTreeMap::new();
+        let mut resolved: std::collections::BTreeSet<u32> = Default::default();
+        for e in &tr.evs {
+            match e {
+                Ev::Submit { tag, timeout_ms: Some(t), .. } => {
+                    timeouts.insert(*tag, *t as u64);
+                }
+                Ev::Done { tag, .. } => {
+                    resolved.insert(*tag);
+                }
+                _ => {}
+            }
+        }
+        let mut all = Vec::new();
+        for em in &tr.emitted {
+            if let Some(tag) = em.tag {
+                if resolved.contains(&tag) {
+                    continue;
+                }
+                if let Some(t) = timeouts.get(&tag) {
+                    all.push(em.t.saturating_add(*t));
+                }
+            }
+        }
+        all
     }
 
     fn flush(&mut self) {
@@ -201,10 +285,9 @@ impl Faithful {
         let now = self.sim.now;
         let ns = if self.sim.conn.is_some() { self.sim.next_service().filter(|t| *t > now) } else { None };
         let sc = self.sched.iter().map(|(d, _)| *d).filter(|d| *d > now).min();
-        match (ns, sc) {
-            (Some(a), Some(b)) => Some(a.min(b)),
-            (a, b) => a.or(b),
-        }
+        let fl = self.flush_due.filter(|d| *d > now);
+        let ec = if self.eager && self.sim.conn.is_some() { self.eager_candidates() } else { None };
+        [ns, sc, fl, ec].iter().flatten().min().copied()
     }
 
     pub fn wait(&mut self, ms: u64) {
@@ -235,17 +318,24 @@ impl Faithful {
             return;
         }
         match op {
-            FOp::Pub { qos, topic, size } => {
-                self.sim.do_publish(*qos, *topic, *size as usize, false, None, None);
+            FOp::Pub { qos, topic, size, timeout_ms } => {
+                self.sim.do_publish(*qos, *topic, *size as usize, false, *timeout_ms, None);
                 self.pump();
             }
-            FOp::Sub { n } => {
-                self.sim.do_subscribe(*n, None, false, false, false);
+            FOp::Sub { n, timeout_ms } => {
+                self.sim.do_subscribe(*n, *timeout_ms, false, false, false);
                 self.pump();
             }
-            FOp::Unsub { n } => {
-                self.sim.do_unsubscribe(*n, None);
+            FOp::Unsub { n, timeout_ms } => {
+                self.sim.do_unsubscribe(*n, *timeout_ms);
                 self.pump();
+            }
+            FOp::WriteDelay { ms } => {
+                // with a keep-alive in force a transport that needs longer than the keep-alive for one packet would only
+                // produce endless ping-timeout / reconnect cycles (the property presupposes writes that complete)
+                if keep_alive_ms(&self.sim.cfg) == 0 {
+                    self.write_delay = *ms as u64;
+                }
             }
             FOp::Wait { ms } => self.wait(*ms as u64),
             FOp::WaitKeepAlive { quarters } => {
@@ -256,6 +346,7 @@ impl Faithful {
                 if self.sim.conn.is_some() {
                     self.sim.do_close();
                     self.sched.clear();
+                    self.flush_due = None;
                 }
                 self.pump();
             }
@@ -360,11 +451,15 @@ fn timeline(tr: &Trace) -> BTreeMap<u32, (Option<u64>, Option<u64>, bool)> {
 
 pub struct C08;
 
+fn op_timeout() -> BoxedStrategy<Option<u32>> {
+    prop_oneof![7 => Just(None), 1 => Just(Some(50u32)), 1 => Just(Some(1000u32)), 1 => Just(Some(3000u32))].boxed()
+}
+
 fn fop_strategy(keepalive_focus: bool) -> BoxedStrategy<FOp> {
     if keepalive_focus {
         prop_oneof![
-            4 => (0u8..3, 0u8..3, 0u16..30).prop_map(|(qos, topic, size)| FOp::Pub { qos, topic, size }),
-            1 => (1u8..3).prop_map(|n| FOp::Sub { n }),
+            4 => (0u8..3, 0u8..3, 0u16..30).prop_map(|(qos, topic, size)| FOp::Pub { qos, topic, size, timeout_ms: None }),
+            1 => (1u8..3).prop_map(|n| FOp::Sub { n, timeout_ms: None }),
             6 => (1u8..14).prop_map(|quarters| FOp::WaitKeepAlive { quarters }),
             3 => prop_oneof![Just(0u32), Just(1u32), Just(499u32), Just(500u32), Just(501u32), Just(999u32), Just(1000u32), Just(1001u32), Just(1499u32), Just(1500u32), Just(1501u32), Just(3000u32)].prop_map(|ms| FOp::Wait { ms }),
             4 => (0u8..5).prop_map(|kind| FOp::PingDelay { kind }),
@@ -375,9 +470,10 @@ fn fop_strategy(keepalive_focus: bool) -> BoxedStrategy<FOp> {
         .boxed()
     } else {
         prop_oneof![
-            10 => (0u8..3, 0u8..3, prop_oneof![4 => 0u16..40, 2 => 40u16..600, 2 => 4000u16..9000, 1 => 9000u16..20000]).prop_map(|(qos, topic, size)| FOp::Pub { qos, topic, size }),
-            2 => (1u8..4).prop_map(|n| FOp::Sub { n }),
-            2 => (1u8..4).prop_map(|n| FOp::Unsub { n }),
+            10 => (0u8..3, 0u8..3, prop_oneof![4 => 0u16..40, 2 => 40u16..600, 2 => 4000u16..9000, 1 => 9000u16..20000], op_timeout()).prop_map(|(qos, topic, size, timeout_ms)| FOp::Pub { qos, topic, size, timeout_ms }),
+            2 => (1u8..4, op_timeout()).prop_map(|(n, timeout_ms)| FOp::Sub { n, timeout_ms }),
+            2 => (1u8..4, op_timeout()).prop_map(|(n, timeout_ms)| FOp::Unsub { n, timeout_ms }),
+            2 => prop_oneof![Just(0u32), Just(1u32), Just(30u32), Just(300u32), Just(2000u32)].prop_map(|ms| FOp::WriteDelay { ms }),
             4 => prop_oneof![Just(0u32), Just(1u32), Just(10u32), Just(250u32), Just(5000u32)].prop_map(|ms| FOp::Wait { ms }),
             2 => Just(FOp::Close),
             2 => prop_oneof![Just(0u32), Just(1u32), Just(40u32), Just(700u32)].prop_map(|ms| FOp::AckDelay { ms }),
@@ -416,8 +512,8 @@ fn c08_cfg() -> BoxedStrategy<SimCfg> {
 fn fop_from(c: &mut crate::bytegen::Cur, keepalive_focus: bool) -> FOp {
     if keepalive_focus {
         match c.weighted(&[4, 1, 6, 3, 4, 1, 1, 1]).unwrap_or(0) {
-            0 => FOp::Pub { qos: c.below(3) as u8, topic: c.below(3) as u8, size: c.below(30) as u16 },
-            1 => FOp::Sub { n: 1 + c.below(2) as u8 },
+            0 => FOp::Pub { qos: c.below(3) as u8, topic: c.below(3) as u8, size: c.below(30) as u16, timeout_ms: None },
+            1 => FOp::Sub { n: 1 + c.below(2) as u8, timeout_ms: None },
             2 => FOp::WaitKeepAlive { quarters: 1 + c.below(13) as u8 },
             3 => FOp::Wait { ms: c.pick(&[0u32, 1, 499, 500, 501, 999, 1000, 1001, 1499, 1500, 1501, 3000]) },
             4 => FOp::PingDelay { kind: c.below(5) as u8 },
@@ -426,7 +522,8 @@ fn fop_from(c: &mut crate::bytegen::Cur, keepalive_focus: bool) -> FOp {
             _ => FOp::SrvPublish { qos: c.below(3) as u8, pid: c.below(4) as u8 },
         }
     } else {
-        match c.weighted(&[10, 2, 2, 4, 2, 2, 2, 1, 1]).unwrap_or(0) {
+        let op_timeout = |c: &mut crate::bytegen::Cur| c.wpick(&[(7, None), (1, Some(50u32)), (1, Some(1000u32)), (1, Some(3000u32))]);
+        match c.weighted(&[10, 2, 2, 4, 2, 2, 2, 1, 1, 2]).unwrap_or(0) {
             0 => {
                 let qos = c.below(3) as u8;
                 let topic = c.below(3) as u8;
@@ -436,10 +533,11 @@ fn fop_from(c: &mut crate::bytegen::Cur, keepalive_focus: bool) -> FOp {
                     2 => 4000 + (c.u16() % 5000),
                     _ => 9000 + (c.u16() % 11000),
                 };
-                FOp::Pub { qos, topic, size }
+                FOp::Pub { qos, topic, size, timeout_ms: op_timeout(c) }
             }
-            1 => FOp::Sub { n: 1 + c.below(3) as u8 },
-            2 => FOp::Unsub { n: 1 + c.below(3) as u8 },
+            1 => FOp::Sub { n: 1 + c.below(3) as u8, timeout_ms: op_timeout(c) },
+            2 => FOp::Unsub { n: 1 + c.below(3) as u8, timeout_ms: op_timeout(c) },
+            9 => FOp::WriteDelay { ms: c.pick(&[0u32, 1, 30, 300, 2000]) },
             3 => FOp::Wait { ms: c.pick(&[0u32, 1, 10, 250, 5000]) },
             4 => FOp::Close,
             5 => FOp::AckDelay { ms: c.pick(&[0u32, 1, 40, 700]) },
@@ -528,6 +626,9 @@ impl Property for C08 {
             let unresolved: Vec<u32> = f.sim.tags.iter().filter(|(_, t)| !t.resolved).map(|(k, _)| *k).collect();
             violations.push(Violation::new("C08.stranded", format!("work is stranded: {}", s), format!("unresolved tags {:?} at t={}", unresolved, f.sim.now)));
         }
+        if f.step_bound_hit && std::env::var("VERIF_DEBUG_STEPBOUND").is_ok() {
+            violations.push(Violation::new("C08.debug_step_bound", "harness step bound (debug only)", format!("steps {}", f.steps)));
+        }
         let panicked = f.sim.tr.evs.iter().any(|e| matches!(e, Ev::Panic { .. }));
         // every retained operation completes successfully
         let tl = timeline(&f.sim.tr);
@@ -540,7 +641,8 @@ impl Property for C08 {
                         Ev::Done { tag: t, done: Done::Err(k, _), .. } if t == tag => Some(*k),
                         _ => None,
                     });
-                    if !matches!(kind, Some(EK::OfflineQueuePolicyFailed)) {
+                    let had_timeout = f.sim.tr.evs.iter().any(|e| matches!(e, Ev::Submit { tag: t, timeout_ms: Some(_), .. } if t == tag));
+                    if !matches!(kind, Some(EK::OfflineQueuePolicyFailed)) && !(had_timeout && matches!(kind, Some(EK::AckTimeout))) {
                         violations.push(Violation::new("C08.failed", format!("an operation fails with {:?} although the broker is responsive", kind), format!("tag {}", tag)));
                     }
                 }
@@ -610,6 +712,12 @@ impl Property for C08 {
         }
         if twin_ran {
             labels.push("twin_compared".into());
+        }
+        if case.ops.iter().any(|o| matches!(o, FOp::WriteDelay { ms } if *ms > 0)) {
+            labels.push("slow_transport".into());
+        }
+        if f.sim.tr.evs.iter().any(|e| matches!(e, Ev::Done { done: Done::Err(EK::AckTimeout, _), .. })) {
+            labels.push("ack_timeout_fired".into());
         }
         if f.step_bound_hit {
             labels.push("step_bound".into());
